@@ -22,7 +22,7 @@ def ustr(v):
         return v
     else:
         fn = getattr(v, '__str__', None)
-        if fn is not None:
+        if fn is not None and not isinstance(v, type):
             # An object that wants to present its own string representation,
             # but we dont know what type of string. We cant use any built-in
             # function like str() or unicode() to retrieve it because
